@@ -28,7 +28,19 @@ Classification of a call in a state (DESIGN §4/C09):
   occupied), and *using* (anything but freeing) an iterator whose source object has been released
   (`Iter.valid = false`).
 
-Model of the **repaired** code: D26 (`decoder_process_*` rejects unless an utterance is in progress,
+Scope of `ApiState`: ONE decoder with everything derived from it (iterators, lattice and alignment
+references).  Configuration objects, held sub-object references (`config_retain`, `logmath_retain`, …),
+MLLR transforms and the second decoder instance live one level up, in `Model/ProtocolSys.lean`, which
+drives two copies of this automaton.
+
+Lattice objects have identities (`dagId`, allocated from `nextObj`, never reused): a lattice retained
+by the user (`lattice_retain`) is the same object as the search's current lattice until the search
+drops it; node / link iterators (`ps_latnode_iter`, `ps_latnode_exits`, …) are pointers into one
+lattice object and stay valid as long as anything holds that object and it has not been pruned
+(`lattice_posterior_prune` deletes nodes and links).
+
+Model of the **repaired** code: D55/D56 (`decoder_apply_mllr`: NULL re-applies the existing transform or
+fails, the transform is consumed), D58 (`lattice_posterior_prune` keeps the start node), D26 (`decoder_process_*` rejects unless an utterance is in progress,
 returning −1), D27 (`decoder_alignment` returns NULL when no word remains: covered by the data-dependent
 flag), D16 (`fsg_search_free` releases the active lists).
 -/
@@ -55,8 +67,11 @@ inductive Blocks | none | some | full
 
 /-- where an iterator points: `segS` backtrace of the search history (`fsg_search_seg_iter`), `hyp` an
 A* search over `search->dag` (`decoder_nbest`), `segH` nodes of `search->dag` (`hyp_iter_seg`), `aliD`
-the alignment owned by `d->align`, `aliU k` an alignment the user retained in slot `k` -/
+the alignment owned by `d->align`, `aliU k` an alignment the user retained in slot `k`, `latN o` / `latL o`
+nodes / links of lattice object `o` -/
 inductive IterKind | segS | hyp | segH | aliD | aliU (k : Nat)
+  /-- node iterator (`ps_latnode_iter`) / link iterator (`ps_latnode_exits/_entries`) into lattice object `o` -/
+  | latN (o : Nat) | latL (o : Nat)
   deriving DecidableEq, Repr
 
 structure Iter where
@@ -72,10 +87,12 @@ structure ApiState where
   utt : Utt := .idle
   blocks : Blocks := .none
   search : Srch := .none
-  cfgJsgf : Gram := .none
-  cfgFsg : Gram := .none
   /-- `search->dag != NULL` -/
   dag : Bool := false
+  /-- identity of the lattice object `search->dag` points to (meaningful while `dag`) -/
+  dagId : Nat := 0
+  /-- next unused lattice object identity (never reset, so identities are never reused) -/
+  nextObj : Nat := 0
   /-- the lattice is known to cover the current frame count (`decoder_lattice` returns it as is) -/
   dagFresh : Bool := false
   /-- `d->align != NULL` (the aligner owns its alignment) -/
@@ -87,10 +104,14 @@ structure ApiState where
   json : Bool := false
   /-- the active-node lists of the search are allocated (`fsg_search_start` … `fsg_search_finish`) -/
   active : Bool := false
+  /-- `acmod->mllr != NULL` -/
+  mllr : Bool := false
+  /-- `d->logfh != NULL` -/
+  logfh : Bool := false
   /-- iterators held by the user -/
   iters : List Iter := []
-  /-- lattice references taken with `lattice_retain` (slot numbers) -/
-  lats : List Nat := []
+  /-- lattice references taken with `lattice_retain`: (slot, lattice object) -/
+  lats : List (Nat × Nat) := []
   /-- alignment references taken with `alignment_retain` (slot numbers) -/
   alns : List Nat := []
   deriving DecidableEq, Repr
@@ -103,19 +124,34 @@ inductive Ret | ok | err | null | ptr | count | rc (n : Nat) | void | oop
 inductive AlSrc | dec | user (k : Nat)
   deriving DecidableEq, Repr
 
+/-- the lattice a `lattice_*` call works on: the decoder's current one (`decoder_lattice(d)`) or one the
+user retained in slot `k` -/
+inductive LatSrc | dec | user (k : Nat)
+  deriving DecidableEq, Repr
+
+/-- argument of `decoder_set_logfile`: NULL / a file that can be opened / one that cannot -/
+inductive LogArg | null | file | bad
+  deriving DecidableEq, Repr
+
 inductive Call
-  /-- `decoder_init(config)`; `g` = grammar named by the configuration, `fails` = the configuration is
-  NULL or names a missing model directory (initialisation fails before the grammar is looked at) -/
-  | init (jsgf : Bool) (g : Gram) (fails : Bool)
-  /-- `decoder_reinit(d, config)`; `none` = NULL or the decoder's own configuration, `some` = a new one -/
-  | reinit (newCfg : Option (Bool × Gram))
+  /-- `decoder_init(config)`; `g` = what `decoder_init_grammar` finds in the configuration (computed from the
+  configuration object by the system level), `fails` = the configuration is NULL or names a missing
+  model directory (initialisation fails before the grammar is looked at) -/
+  | init (g : Gram) (fails : Bool)
+  /-- `decoder_reinit(d, config)` with `g` = what the configuration in force afterwards names -/
+  | reinit (g : Gram)
+  /-- `decoder_reinit_feat(d, NULL)` -/
+  | reinitFeat
   | retain | free
+  /-- `decoder_set_logfile` -/
+  | logfile (a : LogArg)
+  /-- `decoder_apply_mllr(d, mllr)`; `given = false`: the documented NULL argument -/
+  | mllrApply (given : Bool)
+  /-- a call that only takes the decoder and returns nothing (`config_*` on `decoder_config(d)`,
+  `*_retain(decoder_*(d))`: their effect is recorded at the system level) -/
+  | touch
   /-- the documented-NULL calls: `decoder_free(NULL)`, `decoder_retain(NULL)`, `lattice_free(NULL)`, … -/
   | freeNull
-  /-- `config_set_str(decoder_config(d), "jsgf"|"fsg", …)` -/
-  | cfgGram (jsgf : Bool) (g : Gram)
-  /-- any other `config_*` call on the decoder's configuration; `known` = the parameter exists and the value parses (an empty string does not) -/
-  | cfgOther (known : Bool)
   | start
   | proc (full adv : Bool)
   | endUtt (adv : Bool)
@@ -123,7 +159,16 @@ inductive Call
   | seg (id : Nat) (e : Bool) | segNext (id : Nat) (last : Bool) | segFree (id : Nat)
   | nbest (id : Nat) (eDag eHyp : Bool) | hypNext (id : Nat) (last : Bool) | hypFree (id : Nat)
   | hypSeg (dst src : Nat) (e : Bool)
-  | lattice (e : Bool) | latBest (e eb : Bool) | latRetain (k : Nat) (e : Bool) | latWalk (k : Nat) | latFree (k : Nat)
+  | lattice (e : Bool) | latRetain (k : Nat) (e : Bool) | latWalk (k : Nat) | latFree (k : Nat)
+  /-- `lattice_bestpath` + `lattice_posterior` (+ `lattice_hyp`, `lattice_seg_iter`): `e` = there is a lattice,
+  `eb` = a best path exists -/
+  | latBest (src : LatSrc) (e eb : Bool)
+  /-- best path, posterior and `lattice_posterior_prune`; returns the number of links removed -/
+  | latPrune (src : LatSrc) (e eb : Bool)
+  /-- `lattice_traverse_edges/_next` or `lattice_reverse_edges/_next`, possibly abandoned half-way -/
+  | latTrav (src : LatSrc) (e : Bool)
+  | lnode (id : Nat) (src : LatSrc) (e ei : Bool) | lnodeNext (id : Nat) (last : Bool) | lnodeFree (id : Nat)
+  | llink (dst src : Nat) (e : Bool) | llinkNext (id : Nat) (last : Bool) | llinkFree (id : Nat)
   | align (reuse r a : Bool) | alRetain (k : Nat) (reuse r a : Bool) | alFree (k : Nat)
   | alIter (id : Nat) (src : AlSrc) (reuse r a e : Bool) | aliNext (id : Nat) (last : Bool)
   | aliChild (dst src : Nat) (e : Bool) | aliGoto (id : Nat) (gone : Bool) | aliFree (id : Nat)
@@ -139,14 +184,43 @@ inductive Call
 def isSeg : IterKind → Bool | .segS => true | .segH => true | _ => false
 def isHyp : IterKind → Bool | .hyp => true | _ => false
 def isAli : IterKind → Bool | .aliD => true | .aliU _ => true | _ => false
+def isLatN : IterKind → Bool | .latN _ => true | _ => false
+def isLatL : IterKind → Bool | .latL _ => true | _ => false
 def isSegS : IterKind → Bool | .segS => true | _ => false
-def isDagKind : IterKind → Bool | .hyp => true | .segH => true | _ => false
-/-- everything derived from the search: history backtraces and the lattice -/
-def isResultKind : IterKind → Bool | .segS => true | .hyp => true | .segH => true | _ => false
 def isAliD : IterKind → Bool | .aliD => true | _ => false
-/-- everything that dies with the decoder's search and aligner -/
-def isDecoderKind : IterKind → Bool | .aliU _ => false | _ => true
 def isAliU (k : Nat) : IterKind → Bool | .aliU j => j == k | _ => false
+
+/-- some user reference holds lattice object `o` -/
+def holds (lats : List (Nat × Nat)) (o : Nat) : Bool := lats.any (·.2 == o)
+
+/-- the lattice object retained in a slot -/
+def latObj (lats : List (Nat × Nat)) (k : Nat) : Option Nat := (lats.find? (·.1 == k)).map (·.2)
+
+/-- iterators that die when the search drops its current lattice object: A* searches and their
+segmentations always; node / link iterators unless a user reference keeps the object alive -/
+def dagDrop (dagId : Nat) (lats : List (Nat × Nat)) : IterKind → Bool
+  | .hyp => true | .segH => true
+  | .latN o => o == dagId && !holds lats o
+  | .latL o => o == dagId && !holds lats o
+  | _ => false
+/-- everything derived from the search: history backtraces and the lattice -/
+def resultDrop (dagId : Nat) (lats : List (Nat × Nat)) (k : IterKind) : Bool := isSegS k || dagDrop dagId lats k
+/-- everything that dies with the decoder's search and aligner -/
+def decoderDrop (dagId : Nat) (lats : List (Nat × Nat)) : IterKind → Bool
+  | .aliU _ => false
+  | .latN o => dagDrop dagId lats (.latN o)
+  | .latL o => dagDrop dagId lats (.latL o)
+  | _ => true
+/-- iterators into a lattice object whose nodes and links were deleted by `lattice_posterior_prune` -/
+def pruneDrop (cur : Bool) (o : Nat) : IterKind → Bool
+  | .latN o' => o' == o | .latL o' => o' == o
+  | .hyp => cur | .segH => cur
+  | _ => false
+/-- node / link iterators into an object that neither the search nor a user reference holds -/
+def unheld (dag : Bool) (dagId : Nat) (lats : List (Nat × Nat)) : IterKind → Bool
+  | .latN o => !(dag && dagId == o) && !holds lats o
+  | .latL o => !(dag && dagId == o) && !holds lats o
+  | _ => false
 
 def invalidate (p : IterKind → Bool) (l : List Iter) : List Iter :=
   l.map fun it => if p it.kind then { it with valid := false } else it
@@ -157,14 +231,15 @@ def removeIter (l : List Iter) (id : Nat) : List Iter := l.filter (·.id != id)
 /-! ## shared sub-steps -/
 
 /-- `decoder_lattice` (fsg_search.c:1345): NULL without a search; the existing lattice when it covers the
-current frame count; otherwise the old lattice is released (its iterators die) and a new one is built,
-which fails on an empty history -/
+current frame count; otherwise the old lattice object is dropped by the search (iterators into it die
+unless the user retained it) and a new object is built, which fails on an empty history -/
 def latticeStep (s : ApiState) (e : Bool) : ApiState × Bool :=
   if s.search = .none then (s, false)
   else if s.dag && s.dagFresh then (s, true)
   else
     let ok := decide (s.search = .used) && e
-    ({ s with iters := invalidate isDagKind s.iters, dag := ok, dagFresh := ok }, ok)
+    ({ s with iters := invalidate (dagDrop s.dagId s.lats) s.iters, dag := ok, dagFresh := ok,
+              dagId := s.nextObj, nextObj := s.nextObj + 1 }, ok)
 
 /-- `decoder_alignment` (decoder.c:737): `reuse` = the existing aligner stands at the current output frame
 and is returned as is (only possible when an aligner exists and no frame was searched since it was
@@ -176,23 +251,30 @@ def alignStep (s : ApiState) (reuse r a : Bool) : ApiState × Bool :=
   else
     ({ s with iters := invalidate isAliD s.iters, align := r || a || s.align, alFresh := r || a || s.align }, r)
 
-/-- what `decoder_free` releases when the count reaches zero, and `decoder_reinit` before reloading -/
+/-- what `decoder_free` releases when the count reaches zero, and `decoder_reinit` before reloading
+(the acoustic model, hence its transform, is rebuilt by both) -/
 def dropDecoderOwned (s : ApiState) : ApiState :=
   { s with utt := .idle, blocks := .none, search := .none, dag := false, dagFresh := false, align := false,
-           alFresh := false, json := false, active := false,
-           iters := invalidate isDecoderKind s.iters }
-
-def effGram (s : ApiState) : Gram := if s.cfgJsgf ≠ .none then s.cfgJsgf else s.cfgFsg
-
-def setCfg (s : ApiState) (jsgf : Bool) (g : Gram) : ApiState :=
-  if jsgf then { s with cfgJsgf := g } else { s with cfgFsg := g }
+           alFresh := false, json := false, active := false, mllr := false,
+           iters := invalidate (decoderDrop s.dagId s.lats) s.iters }
 
 /-- `decoder_init_grammar` on a decoder whose searches were just released -/
-def loadGrammar (s : ApiState) : ApiState × Ret :=
-  match effGram s with
+def loadGrammar (s : ApiState) (g : Gram) : ApiState × Ret :=
+  match g with
   | .none => (s, .ok)
   | .good => ({ s with search := .fresh }, .ok)
   | .bad => (s, .err)
+
+/-- the lattice a `lattice_*` call works on and its object identity (`none`: no lattice, or an empty slot) -/
+def latOf (s : ApiState) (src : LatSrc) (e : Bool) : ApiState × Option Nat :=
+  match src with
+  | .dec => let r := latticeStep s e; (r.1, if r.2 then some r.1.dagId else none)
+  | .user k => (s, latObj s.lats k)
+
+/-- may the call be made at all: the decoder's lattice needs a decoder, a retained one its slot -/
+def latSrcOk (s : ApiState) : LatSrc → Bool
+  | .dec => s.refs != 0
+  | .user k => (latObj s.lats k).isSome
 
 def ptrIf (b : Bool) : Ret := if b then .ptr else .null
 
@@ -201,13 +283,12 @@ def ptrIf (b : Bool) : Ret := if b then .ptr else .null
 def step (s : ApiState) (c : Call) : ApiState × Ret :=
   match c with
   | .freeNull => (s, .ok)
-  | .init jsgf g fails =>
+  | .init g fails =>
     if s.refs ≠ 0 then (s, .oop)
     else if fails then (s, .null)
     else
-      let s0 : ApiState := { iters := s.iters, lats := s.lats, alns := s.alns, refs := 1 }
-      let s1 := setCfg s0 jsgf g
-      match loadGrammar s1 with
+      let s0 : ApiState := { iters := s.iters, lats := s.lats, alns := s.alns, refs := 1, nextObj := s.nextObj }
+      match loadGrammar s0 g with
       | (s2, .ok) => (s2, .ptr)
       | _ => (s, .null)            -- decoder_init frees the half-built decoder
   | .segFree id =>
@@ -221,6 +302,15 @@ def step (s : ApiState) (c : Call) : ApiState × Ret :=
   | .aliFree id =>
     match findIter s.iters id with
     | some it => if isAli it.kind then ({ s with iters := removeIter s.iters id }, .void) else (s, .oop)
+    | none => (s, .oop)
+  | .lnodeFree id =>
+    -- ps_latnode_iter_free does nothing: the handle is simply dropped
+    match findIter s.iters id with
+    | some it => if isLatN it.kind then ({ s with iters := removeIter s.iters id }, .void) else (s, .oop)
+    | none => (s, .oop)
+  | .llinkFree id =>
+    match findIter s.iters id with
+    | some it => if isLatL it.kind then ({ s with iters := removeIter s.iters id }, .void) else (s, .oop)
     | none => (s, .oop)
   | .segNext id last =>
     match findIter s.iters id with
@@ -250,6 +340,20 @@ def step (s : ApiState) (c : Call) : ApiState × Ret :=
         if gone then ({ s with iters := removeIter s.iters id }, .null) else (s, .ptr)
       else (s, .oop)
     | none => (s, .oop)
+  | .lnodeNext id last =>
+    match findIter s.iters id with
+    | some it =>
+      if isLatN it.kind && it.valid then
+        if last then ({ s with iters := removeIter s.iters id }, .null) else (s, .ptr)
+      else (s, .oop)
+    | none => (s, .oop)
+  | .llinkNext id last =>
+    match findIter s.iters id with
+    | some it =>
+      if isLatL it.kind && it.valid then
+        if last then ({ s with iters := removeIter s.iters id }, .null) else (s, .ptr)
+      else (s, .oop)
+    | none => (s, .oop)
   | .hypSeg dst src e =>
     match findIter s.iters src, findIter s.iters dst with
     | some it, none =>
@@ -264,8 +368,23 @@ def step (s : ApiState) (c : Call) : ApiState × Ret :=
         if e then ({ s with iters := { id := dst, kind := it.kind, valid := true } :: s.iters }, .ptr) else (s, .null)
       else (s, .oop)
     | _, _ => (s, .oop)
-  | .latWalk k => if k ∈ s.lats then (s, .void) else (s, .oop)
-  | .latFree k => if k ∈ s.lats then ({ s with lats := s.lats.filter (· != k) }, .void) else (s, .oop)
+  | .llink dst src e =>
+    match findIter s.iters src, findIter s.iters dst with
+    | some it, none =>
+      match it.kind with
+      | .latN o =>
+        if it.valid then
+          if e then ({ s with iters := { id := dst, kind := .latL o, valid := true } :: s.iters }, .ptr) else (s, .null)
+        else (s, .oop)
+      | _ => (s, .oop)
+    | _, _ => (s, .oop)
+  | .latWalk k => if (latObj s.lats k).isSome then (s, .void) else (s, .oop)
+  | .latFree k =>
+    if (latObj s.lats k).isSome then
+      let lats' := s.lats.filter (·.1 != k)
+      -- an object dies with its last reference (the search's `dag` or another slot's)
+      ({ s with lats := lats', iters := invalidate (unheld s.dag s.dagId lats') s.iters }, .void)
+    else (s, .oop)
   | .alFree k =>
     if k ∈ s.alns then
       ({ s with alns := s.alns.filter (· != k), iters := invalidate (isAliU k) s.iters }, .void)
@@ -274,24 +393,59 @@ def step (s : ApiState) (c : Call) : ApiState × Ret :=
     if k ∈ s.alns ∧ findIter s.iters id = none then
       if e then ({ s with iters := { id := id, kind := .aliU k, valid := true } :: s.iters }, .ptr) else (s, .null)
     else (s, .oop)
+  | .latBest src e eb =>
+    if !latSrcOk s src then (s, .oop) else
+    let r := latOf s src e
+    (r.1, ptrIf (r.2.isSome && eb))
+  | .latTrav src e =>
+    if !latSrcOk s src then (s, .oop) else
+    let r := latOf s src e
+    (r.1, if r.2.isSome then .count else .null)
+  | .latPrune src e eb =>
+    if !latSrcOk s src then (s, .oop) else
+    let r := latOf s src e
+    match r.2 with
+    | some o =>
+      if eb then
+        -- nodes and links are deleted: every iterator into this object dies
+        ({ r.1 with iters := invalidate (pruneDrop (r.1.dag && r.1.dagId == o) o) r.1.iters }, .count)
+      else (r.1, .null)
+    | none => (r.1, .null)
+  | .lnode id src e ei =>
+    if !latSrcOk s src || (findIter s.iters id).isSome then (s, .oop) else
+    let r := latOf s src e
+    match r.2 with
+    | some o =>
+      if ei then ({ r.1 with iters := { id := id, kind := .latN o, valid := true } :: r.1.iters }, .ptr)
+      else (r.1, .null)
+    | none => (r.1, .null)
   | c =>
     -- every remaining call takes the decoder
     if s.refs = 0 then (s, .oop) else
     match c with
     | .retain => ({ s with refs := s.refs + 1 }, .ptr)
+    | .touch => (s, .void)
     | .free =>
       if s.refs = 1 then
-        ({ dropDecoderOwned s with refs := 0, cfgJsgf := .none, cfgFsg := .none }, .rc 0)
+        -- decoder_free closes the log file too
+        ({ dropDecoderOwned s with refs := 0, logfh := false }, .rc 0)
       else ({ s with refs := s.refs - 1 }, .rc (s.refs - 1))
-    | .reinit newCfg =>
+    | .reinit g =>
       if s.utt = .inUtt then (s, .oop) else
-      let s1 := dropDecoderOwned s
-      let s2 := match newCfg with
-        | none => s1
-        | some (jsgf, g) => setCfg { s1 with cfgJsgf := .none, cfgFsg := .none } jsgf g
-      loadGrammar s2
-    | .cfgGram jsgf g => (setCfg s jsgf g, .ptr)
-    | .cfgOther known => (s, ptrIf known)
+      loadGrammar (dropDecoderOwned s) g
+    | .reinitFeat =>
+      -- the feature buffers are reallocated: out-of-protocol while they hold an utterance
+      if s.utt = .inUtt then (s, .oop) else (s, .ok)
+    | .logfile a =>
+      match a with
+      | .null => ({ s with logfh := false }, .ok)
+      | .file => ({ s with logfh := true }, .ok)
+      | .bad => (s, .err)
+    | .mllrApply given =>
+      -- the Gaussians are reloaded and transformed: out-of-protocol while an utterance is scored with them
+      if s.utt = .inUtt then (s, .oop)
+      else if given then ({ s with mllr := true }, .ptr)
+      else (s, ptrIf s.mllr)
     | .start =>
       -- decoder.c:896-905
       if s.utt = .inUtt then (s, .err)
@@ -299,7 +453,7 @@ def step (s : ApiState) (c : Call) : ApiState × Ret :=
       else
         ({ s with utt := .inUtt, blocks := .none, search := .used, dag := false, dagFresh := false, align := false,
                   alFresh := false, json := false, active := true,
-                  iters := invalidate (fun k => isResultKind k || isAliD k) s.iters }, .ok)
+                  iters := invalidate (fun k => resultDrop s.dagId s.lats k || isAliD k) s.iters }, .ok)
     | .proc full adv =>
       -- decoder.c:968 / 1005 (repaired: reject unless an utterance is in progress)
       if s.utt ≠ .inUtt then (s, .err)
@@ -326,11 +480,10 @@ def step (s : ApiState) (c : Call) : ApiState × Ret :=
         ({ s with iters := { id := id, kind := .segS, valid := true } :: s.iters }, .ptr)
       else (s, .null)
     | .lattice e => let r := latticeStep s e; (r.1, ptrIf r.2)
-    | .latBest e eb => let r := latticeStep s e; (r.1, ptrIf (r.2 && eb))
     | .latRetain k e =>
-      if k ∈ s.lats then (s, .oop) else
+      if (latObj s.lats k).isSome then (s, .oop) else
       let r := latticeStep s e
-      if r.2 then ({ r.1 with lats := k :: r.1.lats }, .ptr) else (r.1, .null)
+      if r.2 then ({ r.1 with lats := (k, r.1.dagId) :: r.1.lats }, .ptr) else (r.1, .null)
     | .nbest id eDag eHyp =>
       if findIter s.iters id ≠ none then (s, .oop) else
       let r := latticeStep s eDag
@@ -366,7 +519,7 @@ def step (s : ApiState) (c : Call) : ApiState × Ret :=
       else
         -- decoder_set_fsg: the old search (history, lattice) is released, the aligner and the JSON stay
         ({ s with search := .fresh, dag := false, dagFresh := false, active := false,
-                  iters := invalidate isResultKind s.iters }, .ok)
+                  iters := invalidate (resultDrop s.dagId s.lats) s.iters }, .ok)
     | _ => (s, .oop)
 
 def run (s : ApiState) : List Call → ApiState
@@ -385,6 +538,7 @@ def init0 : ApiState := {}
 /-- one entry per live reference: who holds what -/
 inductive Ref
   | userDecoder | decoderConfig | decoderSearch | searchLattice | searchActiveLists | decoderAligner | decoderJson
+  | decoderTransform | decoderLogFile
   | userIter (id : Nat) | userLattice (k : Nat) | userAlignment (k : Nat)
   deriving DecidableEq, Repr
 
@@ -396,8 +550,10 @@ def ledger (s : ApiState) : List Ref :=
   ++ (if s.active then [.searchActiveLists] else [])
   ++ (if s.align then [.decoderAligner] else [])
   ++ (if s.json then [.decoderJson] else [])
+  ++ (if s.mllr then [.decoderTransform] else [])
+  ++ (if s.logfh then [.decoderLogFile] else [])
   ++ s.iters.map (fun it => .userIter it.id)
-  ++ s.lats.map .userLattice
+  ++ s.lats.map (fun p => .userLattice p.1)
   ++ s.alns.map .userAlignment
 
 /-- the history has released the last decoder reference, freed or exhausted every iterator and dropped
@@ -411,11 +567,13 @@ def live (s : ApiState) : IterKind → Prop
   | .segH => s.dag = true
   | .aliD => s.align = true
   | .aliU k => k ∈ s.alns
+  | .latN o => (s.dag = true ∧ s.dagId = o) ∨ holds s.lats o = true
+  | .latL o => (s.dag = true ∧ s.dagId = o) ∨ holds s.lats o = true
 
 /-- well-formedness of a protocol state (invariant of `step`) -/
 structure WF (s : ApiState) : Prop where
   dead : s.refs = 0 → s.search = .none ∧ s.utt = .idle ∧ s.align = false ∧ s.json = false
-          ∧ s.cfgJsgf = .none ∧ s.cfgFsg = .none
+          ∧ s.mllr = false ∧ s.logfh = false
   noSearch : s.search = .none → s.dag = false ∧ s.utt ≠ .inUtt
   activeIff : s.active = true ↔ s.utt = .inUtt
   inUtt : s.utt = .inUtt → s.search = .used
@@ -433,8 +591,10 @@ def outOfOrder (s : ApiState) : Call → Prop
   | .prob => s.refs ≠ 0 ∧ s.search = .none
   | .seg id _ => s.refs ≠ 0 ∧ s.search = .none ∧ findIter s.iters id = none
   | .lattice _ => s.refs ≠ 0 ∧ s.search = .none
-  | .latBest _ _ => s.refs ≠ 0 ∧ s.search = .none
-  | .latRetain k _ => s.refs ≠ 0 ∧ s.search = .none ∧ k ∉ s.lats
+  | .latBest src _ _ => src = .dec ∧ s.refs ≠ 0 ∧ s.search = .none
+  | .latTrav src _ => src = .dec ∧ s.refs ≠ 0 ∧ s.search = .none
+  | .latPrune src _ _ => src = .dec ∧ s.refs ≠ 0 ∧ s.search = .none
+  | .latRetain k _ => s.refs ≠ 0 ∧ s.search = .none ∧ latObj s.lats k = none
   | .nbest id _ _ => s.refs ≠ 0 ∧ s.search = .none ∧ findIter s.iters id = none
   | _ => False
 
@@ -453,12 +613,16 @@ def errorValue : Call → Ret
 /-- the documented return classes of a call (what an in-protocol call may return) -/
 def docClass : Call → List Ret
   | .freeNull => [.ok]
-  | .init _ _ _ => [.ptr, .null]
+  | .init _ _ => [.ptr, .null]
   | .reinit _ => [.ok, .err]
+  | .reinitFeat => [.ok, .err]
+  | .logfile _ => [.ok, .err]
+  | .touch => [.void]
+  | .latTrav _ _ => [.count, .null]
+  | .latPrune _ _ _ => [.count, .null]
+  | .lnodeFree _ => [.void] | .llinkFree _ => [.void]
   | .retain => [.ptr]
   | .free => []          -- the new reference count, see `isDoc`
-  | .cfgGram _ _ => [.ptr]
-  | .cfgOther _ => [.ptr, .null]
   | .start => [.ok, .err]
   | .proc _ _ => [.count, .err]
   | .endUtt _ => [.ok, .err]
